@@ -303,6 +303,10 @@ func (s *Sess) Shutdown() {
 	}
 	s.ln.Close()
 	synctest.Wait()
+	// goroutines that are asleep (a retry pause, a timer) count as durably blocked and the bubble's clock stops when
+	// the test function returns: give them virtual time to see that their connection is gone
+	time.Sleep(time.Second)
+	synctest.Wait()
 }
 
 func time1(i int) time.Duration { return time.Duration(i+1) * 37 * time.Minute }
